@@ -79,6 +79,8 @@ class ProtoExporter:
 
         # ExternalModule-id to Proto-ExternalModule dict
         self.ext_modules: Dict[int, vckt.ExternalModule] = dict()
+        # Declared Proto-ExternalModules, keyed by the (domain, name) pairs which identify them in the `Package`
+        self.ext_modules_by_name: Dict[tuple, vckt.ExternalModule] = dict()
 
         # Default `domain` AKA package-name is the empty string
         self.pkg = vckt.Package(domain=domain or "")
@@ -168,9 +170,21 @@ class ProtoExporter:
         # ...
         pmod = export_external_module(emod)
 
+        # The `Package` identifies ExternalModules by (domain, name), and declares each once.
+        # Another `ExternalModule` object may have declared this one's already.
+        key = (pmod.name.domain, pmod.name.name)
+        declared = self.ext_modules_by_name.get(key, None)
+        if declared is None:
+            self.ext_modules_by_name[key] = pmod
+            self.pkg.ext_modules.append(pmod)
+        elif declared == pmod:  # An identical declaration serves both.
+            pmod = declared
+        else:
+            msg = f"Cannot serialize {emod} due to a conflicting declaration of ExternalModule {key}: {declared}"
+            raise RuntimeError(msg)
+
         # Store references to the result, and return it
         self.ext_modules[id(emod)] = pmod
-        self.pkg.ext_modules.append(pmod)
         return pmod
 
     def export_instance(self, inst: Instance) -> vckt.Instance:
